@@ -260,6 +260,126 @@ def replay_obj(pid, path):
     return 1 if v.violations else 0
 
 
+
+# ======================================================================= C14: build configurations
+C14_CONFIGS = [
+    # name, features, no-default-features
+    ("default", [], False),
+    ("unsafe", ["unsafe"], False),
+    ("unchecked", ["unchecked"], False),
+    ("fnv", ["opt-reduce-fnv-table"], False),
+    ("unsafe_fnv", ["unsafe", "opt-reduce-fnv-table"], False),
+    ("strict", ["strict-parser"], False),
+    ("nodefault", [], True),
+]
+C14_SPEC = {"c14gen": ("TraceGen.tla", "TraceGen.cfg"), "c14cmp": ("TraceCmp.tla", "TraceCmp.cfg"),
+            "c14obj": ("TraceObj.tla", "TraceObj.cfg"), "c14hash": ("TraceHash.tla", "TraceHash.cfg")}
+
+
+def _build_config(name, feats, nodefault, profile):
+    tdir = os.path.join(BUILD, "target_c14")
+    cmd = ["cargo", "build", "--offline", "--target-dir", tdir]
+    if profile == "release":
+        cmd.append("--release")
+    if nodefault:
+        cmd.append("--no-default-features")
+    if feats:
+        cmd += ["--features", ",".join(feats)]
+    t0 = time.time()
+    p = subprocess.run(cmd, cwd=HARNESS, env=dict(os.environ, CARGO_NET_OFFLINE="true"), stdout=subprocess.PIPE, stderr=subprocess.STDOUT, text=True)
+    if p.returncode != 0:
+        log(p.stdout[-5000:])
+        raise ToolError("harness build failed for configuration %s/%s" % (name, profile))
+    os.makedirs(os.path.join(BUILD, "bin"), exist_ok=True)
+    dst = os.path.join(BUILD, "bin", "verif-harness-%s-%s" % (name, profile))
+    shutil.copy2(os.path.join(tdir, "release" if profile == "release" else "debug", "verif-harness"), dst)
+    log("[build] %s/%s in %.1fs" % (name, profile, time.time() - t0))
+    return dst
+
+
+def _canon(ev, strict_cfg):
+    """an event with everything configuration-specific removed (for cross-configuration comparison)"""
+    if ev.get("ev") in ("hashbuf", "hashstream"):
+        return None
+    if strict_cfg and (ev.get("ev") in ("parse", "op", "hnew")):
+        return None          # parse results legitimately differ under the strict parser; histories diverge after a parse
+
+    def strip(x):
+        if isinstance(x, dict):
+            return {k: strip(v) for k, v in x.items() if not (k in ("str", "unchecked", "uobs", "unit") or k.startswith("u_"))}
+        if isinstance(x, list):
+            return [strip(v) for v in x]
+        return x
+    return strip(ev)
+
+
+def check_c14(pid, tier):
+    v = Verdict(pid, tier)
+    profiles = [("release", C14_CONFIGS), ("debug", C14_CONFIGS if tier == "thorough" else C14_CONFIGS[:1])]
+    runs = []
+    for prof, cfgs in profiles:
+        for name, feats, nd in cfgs:
+            binp = _build_config(name, feats, nd, prof)
+            out = fresh_dir("tr_C14_%s_%s" % (name, prof))
+            run_harness(binp, ["c14", "--seed", str(seed()), "--tier", tier, "--out", out, "--shards", "3"])
+            runs.append((name, prof, out))
+    for name, mod, cfg in [("dual_c8a2", "MCDual.tla", "MCDual_c8a2.cfg"), ("hashes_scaled", "MCHashes.tla", "MCHashes_scaled.cfg")]:
+        v.add_mc(run_mc(name, mod, cfg))
+    # (1) every configuration conforms to the one specification (strict parser: STRICT = TRUE)
+    cache = {}
+    nfiles = 0
+    for prefix, (mod, cfg) in C14_SPEC.items():
+        normal, strict = [], []
+        for name, prof, out in runs:
+            fs = sorted(glob.glob(os.path.join(out, prefix + "_*.ndjson")))
+            (strict if (name == "strict" and prefix == "c14obj") else normal).extend(fs)
+        for files, c in ((normal, cfg), (strict, "TraceObj_strict.cfg")):
+            if not files:
+                continue
+            res = run_tv(mod, c, files, timeout=3000)
+            nfiles += len(files)
+            v.add_tv("%s/%s" % (mod, c), res)
+            for r in res:
+                if not r["accepted"]:
+                    evs = cache.setdefault(r["file"], read_events(r["file"]))
+                    k = r["rejected_at"]
+                    conf = os.path.basename(os.path.dirname(r["file"]))
+                    v.violation("configuration %s: trace rejected at event %d of %s: %s ; %s" % (conf, k, os.path.basename(r["file"]), json.dumps(evs[k - 1])[:400], (r["mismatch"] or [""])[0][:500]),
+                                {"family": "c14", "property": pid, "config": conf, "events": [evs[k - 1]], "spec": r["mismatch"][:1]})
+    # (2) the transcripts are the same in every configuration (up to configuration-specific entries)
+    base = runs[0][2]
+    ndiff = 0
+    for name, prof, out in runs[1:]:
+        for bf in sorted(glob.glob(os.path.join(base, "*.ndjson"))):
+            of = os.path.join(out, os.path.basename(bf))
+            sc = name == "strict"
+            a = [x for x in (_canon(e, sc) for e in read_events(bf)) if x is not None]
+            b = [x for x in (_canon(e, sc) for e in read_events(of)) if x is not None]
+            if a != b:
+                idx = next((i for i in range(min(len(a), len(b))) if a[i] != b[i]), min(len(a), len(b)))
+                ea = a[idx] if idx < len(a) else None
+                eb = b[idx] if idx < len(b) else None
+                keys = [k for k in (ea or {}) if (eb or {}).get(k) != ea.get(k)] if ea and eb else []
+                ndiff += 1
+                v.violation("configuration %s/%s differs from default/release in %s at comparable event %d (fields %s)" % (name, prof, os.path.basename(bf), idx, keys),
+                            {"family": "c14", "property": pid, "config": "%s/%s" % (name, prof), "default": ea, "other": eb, "events": []})
+                break
+    nev = sum(1 for _, _, out in runs for fpath in glob.glob(os.path.join(out, "*.ndjson")) for _ in open(fpath))
+    v.cov["evaluations"] = nev
+    v.cov["distinct_nontrivial"] = len(runs)
+    v.cov["configurations"] = ["%s/%s" % (n, p) for n, p, _ in runs]
+    v.cov["transcript_differences"] = ndiff
+    v.cov["rule"] = "one seeded scenario slice of every family (generator corner grid + histories, comparison pairs, parse/normalise/dual/format/order/histories/constructors incl. the *_unchecked entry points where the checked ones accepted the arguments, hash primitives) run by one harness binary per build configuration; every trace validated against the same specification (STRICT = TRUE for strict-parser) and compared event by event with default/release. non-trivial = configurations"
+    evs = read_events(sorted(glob.glob(os.path.join(base, "*.ndjson")))[0])
+    v.cov["samples"] = [json.dumps(e)[:400] for e in evs[:2]]
+    v.assumptions = ["silent undefined behaviour without observable effect is out of scope (Miri / sanitizers are a different technique)", "TLC/SANY 1.8.0"]
+    return v.finish()
+
+
+def replay_c14(pid, path):
+    return check_c14(pid, "quick")
+
+
 HASH_TBL = {
     "C19": {"modes": ["all"], "mc": {"quick": [("hashes_scaled", "MCHashes.tla", "MCHashes_scaled.cfg"), ("hashes_real", "MCHashes.tla", "MCHashes_real.cfg")],
                                      "thorough": [("hashes_scaled", "MCHashes.tla", "MCHashes_scaled.cfg"), ("hashes_real", "MCHashes.tla", "MCHashes_real.cfg")]},
@@ -299,8 +419,8 @@ def replay_hashes(pid, path):
     return 1 if v.violations else 0
 
 
-CHECKS = {"C01": check_gen, "C03": check_gen, "C12": check_gen, "C13": check_gen, "C18": check_gen, "C19": check_hashes}
-REPLAY = {"C01": replay_gen, "C03": replay_gen, "C12": replay_gen, "C13": replay_gen, "C18": replay_gen, "C19": replay_hashes}
+CHECKS = {"C14": check_c14, "C01": check_gen, "C03": check_gen, "C12": check_gen, "C13": check_gen, "C18": check_gen, "C19": check_hashes}
+REPLAY = {"C14": replay_c14, "C01": replay_gen, "C03": replay_gen, "C12": replay_gen, "C13": replay_gen, "C18": replay_gen, "C19": replay_hashes}
 for _p in CMP:
     CHECKS[_p] = check_cmp
     REPLAY[_p] = replay_cmp
